@@ -1,4 +1,4 @@
-Require Import OPC.Uni OPC.Order OPC.gen.GenLoops OPC.OrderThm OPC.Retry OPC.RetryThm.
+Require Import OPC.Uni OPC.Order OPC.Registry OPC.gen.GenLoops OPC.OrderThm OPC.Retry OPC.RetryThm OPC.RegistryThm.
 From Coq Require Import NArith List Bool Permutation. Import ListNotations. Open Scope N_scope.
 
 (* Python's sorted(S) on a set of strings gives one list for every enumeration order of S (union type strings, response_type) *)
@@ -65,3 +65,23 @@ Theorem C12_clean_run_order_independent : forall g todo todo', Permutation todo 
   snd (process g todo) = [] -> forall n, In n todo' -> In n (fst (process g todo')).
 Proof. exact clean_run_order_independent. Qed.
 Print Assumptions C12_clean_run_order_independent.
+
+(* order part, registry: raising a flag on re-registration (the multipart body copy) depends only on the SET of uses ... *)
+Theorem C12_sticky_order_independent : forall uses uses' c, Permutation uses uses' -> reg_get (sticky_final uses) c = reg_get (sticky_final uses') c.
+Proof. exact sticky_order_independent. Qed.
+Print Assumptions C12_sticky_order_independent.
+
+(* ... whereas last-registration-wins is order dependent, except when all uses of a class agree *)
+Theorem C12_overwrite_refuted : exists uses uses' c, Permutation uses uses' /\ reg_get (overwrite_final uses) c <> reg_get (overwrite_final uses') c.
+Proof. exact overwrite_refuted. Qed.
+Print Assumptions C12_overwrite_refuted.
+
+Theorem C12_overwrite_order_independent_if_consistent : forall uses uses' c,
+  Permutation uses uses' -> uses_consistent uses = true -> reg_get (overwrite_final uses) c = reg_get (overwrite_final uses') c.
+Proof. exact overwrite_order_independent_if_consistent. Qed.
+Print Assumptions C12_overwrite_order_independent_if_consistent.
+
+(* regenerated table of registration sites: every re-binding of a class name is first-only, compatibility-checked or sticky *)
+Theorem C12_registrations_safe : forallb reg_ok gen_registrations = true.
+Proof. exact registrations_safe. Qed.
+Print Assumptions C12_registrations_safe.
